@@ -4,6 +4,8 @@ aliasing model, partitioned on alias facts.  Rules evaluated on it:
   R-STALE    a limb pointer taken from an object is not used after an event that may move or free that object's
              block - or the block of any object that may be the same variable - until it is reloaded      (C04, C05)
   R-CLOBBER  an input operand is not read after an output that may be the same variable was overwritten  (C05)
+  R-CONSTSRC nothing is stored through (a limb pointer of) an input-only operand, except on a path that a pointer comparison
+             reserves for "this operand is the output variable"  (C05: operands that are not outputs keep their value)
 
 Alias model at entry (doc/mpir.texi, "Variable Conventions"; division/sqrtrem/gcdext entries): an output (non-const
 object pointer parameter) may be the same variable as any input of the same type; two outputs of one call are distinct;
@@ -174,6 +176,8 @@ class Analysis:
         self.exceptions = set()
         self.static_noalias = set()      # frozenset((i, j)) parameter pairs that no call site of a static function aliases
         self.overlap = {}                # callee -> [(i, j, kind, text)]
+
+    READONLY_DESPITE_TYPE = set()
 
     # ---- regions -----------------------------------------------------------------------------
     def preg(self, i, sub=""):
@@ -474,6 +478,27 @@ class Analysis:
                 st.written.setdefault(r, {}).setdefault(comp, line)
                 self.stats.bump("output_writes", (line, r, comp))
 
+    def const_write(self, regions, st, ne, line, how):
+        """R-CONSTSRC: the limbs (or the whole) of an input-only operand are written although nothing on this path says the
+        operand is the same variable as an output - the call with distinct variables changes an input"""
+        for r in regions:
+            if r[0] != "P" or not self.is_input(r):
+                continue
+            self.stats.bump("constsrc_obligations", (line, r))
+            if any(isinstance(x, tuple) and x[0] == "eq" and r[1] in x[1:] and
+                   self.is_output(("P", x[2] if x[1] == r[1] else x[1], "", "")) for x in ne):
+                continue
+            if not self.fine:
+                self.stats.bump("constsrc_undecided", (line, r))
+                continue
+            if ("R-CONSTSRC", self.fn["name"], self.rname(r)) in self.exceptions:
+                self.stats["reviewed_exceptions"] += 1
+                continue
+            self.rep("R-CONSTSRC", line, "constsrc:%s" % self.rname(r),
+                     "%s is an input-only (const) operand, but its %s at line %d, on a path where nothing establishes that it is the same "
+                     "variable as an output: with distinct variables the call changes an operand that is not an output"
+                     % (self.rname(r), how, line))
+
     def read(self, regions, comp, st, ne, line, how):
         for r in regions:
             if r[0] != "P" or not self.is_input(r):
@@ -583,7 +608,10 @@ class Analysis:
                     self.read({r for (r, f, l, b) in v[1]}, "limbs", st, ne, line, "read through %s by %s" % (self.argname(args[i]), c))
                 else:
                     self.write({r for (r, f, l, b) in v[1]}, "limbs", st, line)
+                    if isptr and not (c or "").startswith("__builtin_") and c not in self.READONLY_DESPITE_TYPE:
+                        self.const_write({r for (r, f, l, b) in v[1]}, st, ne, line, "limb block is passed to %s as a non-const pointer" % (c or "a callee"))
         for regs in outs:
+            self.const_write(regs, st, ne, line, "object is passed to %s as a destination" % (c or "a callee"))
             # an object handed to a callee as destination: overwritten, possibly reallocated
             self.write(regs, "all", st, line)
             self.invalidate(regs, st, ne, line, c)
@@ -691,6 +719,7 @@ class Analysis:
             if v and v[0] == "limb":
                 self.use_limb(v, st, line, self.argname(p), "stored through")
                 self.write({r for (r, f, l, b) in v[1]}, "limbs", st, line)
+                self.const_write({r for (r, f, l, b) in v[1]}, st, ne, line, "limbs are stored through %s" % self.argname(p))
                 idx = tadd(self.term(lhs["idx"], st), T(1)) if k == "index" else T(1)
                 if idx is not None:
                     self.check_extent(p, idx, st, line, "the store through %s" % self.argname(p))
@@ -785,8 +814,6 @@ class Analysis:
         if not a or not b or a[0] != b[0]:
             return ne
         equal = (c["op"] == "==") == (truth != neg)
-        if equal:
-            return ne
         if a[0] == "obj" and len(a[1]) == 1 and len(b[1]) == 1:
             ra, rb = next(iter(a[1])), next(iter(b[1]))
         elif a[0] == "limb" and len(a[1]) == 1 and len(b[1]) == 1:
@@ -797,6 +824,8 @@ class Analysis:
         else:
             return ne
         if ra[0] == "P" and rb[0] == "P" and ra[1] != rb[1]:
+            if equal:
+                return ne | {("eq", min(ra[1], rb[1]), max(ra[1], rb[1]))}      # R-CONSTSRC: this path exists only for the same variable
             return ne | {frozenset((ra[1], rb[1]))}
         return ne
 
